@@ -18,12 +18,13 @@ use crate::rng::Rng;
 use petgraph::csr::Csr;
 use petgraph::dot::{Config, Dot, RankDir};
 use petgraph::graph::IndexType;
-use petgraph::graph6::{from_graph6_representation, FromGraph6, ToGraph6};
+use petgraph::graph6::{from_graph6_representation, get_graph6_representation, FromGraph6, ToGraph6};
 use petgraph::graphmap::GraphMap;
 use petgraph::matrix_graph::MatrixGraph;
 use petgraph::stable_graph::StableGraph;
 use petgraph::visit::{
-    EdgeRef, GraphProp, IntoEdgeReferences, IntoNodeIdentifiers, IntoNodeReferences, NodeIndexable, NodeRef,
+    EdgeRef, GraphProp, IntoEdgeReferences, IntoNodeIdentifiers, IntoNodeReferences, NodeFiltered, NodeIndexable, NodeRef,
+    Reversed,
 };
 use petgraph::{Directed, EdgeType, Graph, Undirected};
 use std::collections::hash_map::RandomState;
@@ -119,6 +120,26 @@ fn enc_line(ctx: &mut Ctx, ty: &str, labels: &[u32], ix: &[usize], bound: usize,
     );
 }
 
+/// LAW: `ToGraph6::graph6_string` is the public free function `get_graph6_representation` on a reference to the graph
+fn free_fn_law(ctx: &mut Ctx, ty: &str, n: usize, method: &Option<String>, free: impl FnOnce() -> String) {
+    if n > 1100 {
+        return;
+    }
+    let f = catch(free);
+    ctx.line(
+        &format!("law graph6-free-function {}", ty),
+        &if &f == method {
+            "ok".to_string()
+        } else {
+            format!(
+                "VIOLATED get_graph6_representation(&g) = [{}] but g.graph6_string() = [{}]",
+                f.unwrap_or_else(|| "panic".into()),
+                method.clone().unwrap_or_else(|| "panic".into())
+            )
+        },
+    );
+}
+
 fn ndummies(rng: &mut Rng, n: usize, cap: usize) -> usize {
     let d = match rng.below(4) {
         0 => 0,
@@ -176,6 +197,7 @@ fn enc_graph<Ix: IndexType>(ctx: &mut Ctx, rng: &mut Rng, a: &Abs, cap: usize) {
     let labels: Vec<u32> = (&g).node_identifiers().map(|i| g[i]).collect();
     let ix: Vec<usize> = (&g).node_identifiers().map(|i| i.index()).collect();
     let r = catch(|| g.graph6_string());
+    free_fn_law(ctx, "graph", a.n, &r, || get_graph6_representation(&g));
     enc_line(ctx, "graph", &labels, &ix, g.node_count(), r);
 }
 
@@ -239,6 +261,7 @@ fn enc_stable<Ix: IndexType>(ctx: &mut Ctx, rng: &mut Rng, a: &Abs, cap: usize) 
     let ix: Vec<usize> = (&g).node_identifiers().map(|i| i.index()).collect();
     let bound = NodeIndexable::node_bound(&g);
     let r = catch(|| g.graph6_string());
+    free_fn_law(ctx, "stable", a.n, &r, || get_graph6_representation(&g));
     enc_line(ctx, "stable", &labels, &ix, bound, r);
 }
 
@@ -273,6 +296,7 @@ fn enc_map(ctx: &mut Ctx, rng: &mut Rng, a: &Abs) {
     }
     let labels: Vec<u32> = (&g).node_identifiers().collect();
     let r = catch(|| g.graph6_string());
+    free_fn_law(ctx, "map", a.n, &r, || get_graph6_representation(&g));
     enc_line(ctx, "map", &labels, &[], g.node_count(), r);
 }
 
@@ -328,6 +352,7 @@ fn enc_matrix(ctx: &mut Ctx, rng: &mut Rng, a: &Abs) {
     let ix: Vec<usize> = (&g).node_identifiers().map(|i| i.index()).collect();
     let bound = NodeIndexable::node_bound(&g);
     let r = catch(|| g.graph6_string());
+    free_fn_law(ctx, "matrix", a.n, &r, || get_graph6_representation(&g));
     enc_line(ctx, "matrix", &labels, &ix, bound, r);
 }
 
@@ -344,6 +369,7 @@ fn enc_csr(ctx: &mut Ctx, rng: &mut Rng, a: &Abs) {
     let labels: Vec<u32> = (&g).node_identifiers().map(|i| g[i]).collect();
     let ix: Vec<usize> = (&g).node_identifiers().map(|i| i as usize).collect();
     let r = catch(|| g.graph6_string());
+    free_fn_law(ctx, "csr", a.n, &r, || get_graph6_representation(&g));
     enc_line(ctx, "csr", &labels, &ix, g.node_count(), r);
 }
 
@@ -637,7 +663,9 @@ fn g6_case(ctx: &mut Ctx, rng: &mut Rng, case: u64, a: Abs, family: &str) {
         &format!("truth n={} simple={} edges={}", a.n, a.simple as u8, pairs_str(&a.edges)),
         "ok",
     );
-    let big = a.n > 200;
+    // `big`: too many edges for the quadratic builders (Csr::add_edge, label look-ups); a sparse graph of a large order
+    // goes through all five types
+    let big = a.n > 200 && (a.n > 1100 || a.edges.len() > 64);
     // encoders, all five types (index widths vary; u8 only where everything fits)
     match rng.below(4) {
         0 if a.n + 5 <= 255 && a.edges.len() + 8 <= 255 => enc_graph::<u8>(ctx, rng, &a, 255),
@@ -664,7 +692,13 @@ fn g6_case(ctx: &mut Ctx, rng: &mut Rng, case: u64, a: Abs, family: &str) {
         if !big {
             let t = a.n * a.n.saturating_sub(1) / 2;
             let p = *rng.pick(&[3u32, 20, 50, 80]);
-            let bits: Vec<bool> = (0..t).map(|_| rng.chance(p)).collect();
+            let mut bits: Vec<bool> = (0..t).map(|_| a.n <= 200 && rng.chance(p)).collect();
+            if a.n > 200 {
+                // a large order: a few bits only (the decoders of Csr / MatrixGraph build edge by edge)
+                for _ in 0..rng.below(30) {
+                    bits[rng.below(t)] = true;
+                }
+            }
             let s2 = pack_graph6(a.n, &bits);
             dec_lines(ctx, rng, &s2, a.n, false);
         }
@@ -703,7 +737,16 @@ fn random_abs(rng: &mut Rng, thorough: bool) -> (Abs, &'static str) {
         5..=9 => (*rng.pick(&[61usize, 62, 62, 63, 63, 63, 64, 64, 65]), "switch"),
         10..=12 => (55 + rng.below(16), "near"),
         13..=16 => (9 + rng.below(46), "mid"),
-        17..=18 => (71 + rng.below(70), "long"),
+        17 => (71 + rng.below(70), "long"),
+        18 => {
+            if rng.chance(50) {
+                // orders that need more than eight bits of the 18-bit size header (and both sides of every byte
+                // boundary of the order): sparse, stored in and decoded into all five types
+                (*rng.pick(&[255usize, 256, 256, 257, 257, 258, 300, 511, 512, 513, 767, 768, 1000, 1023, 1024]), "big")
+            } else {
+                (71 + rng.below(70), "long")
+            }
+        }
         _ => {
             if rng.chance(if thorough { 10 } else { 6 }) {
                 (*rng.pick(&[4095usize, 4096, 4097]), "huge")
@@ -712,13 +755,22 @@ fn random_abs(rng: &mut Rng, thorough: bool) -> (Abs, &'static str) {
             }
         }
     };
-    let p: u32 = if n > 1000 { 1 } else { *rng.pick(&[0u32, 3, 10, 20, 50, 50, 80, 97, 100]) };
+    let sparse = n > 1000 || fam == "big";
+    let p: u32 = if sparse { 1 } else { *rng.pick(&[0u32, 3, 10, 20, 50, 50, 80, 97, 100]) };
     let mut edges = Vec::new();
-    if n > 1000 {
+    if sparse {
         // sparse: a handful of edges incl. the first and last position
         edges.push((0, 1));
         edges.push((n - 2, n - 1));
-        for _ in 0..200 {
+        if fam == "big" {
+            // pairs whose column / row index needs the ninth bit, and the pairs around index 255/256
+            for e in [(0, n - 1), (254, 255), (255, 256), (0, 256), (1, 255)] {
+                if e.1 < n && rng.chance(60) && !edges.contains(&e) {
+                    edges.push(e);
+                }
+            }
+        }
+        for _ in 0..(if fam == "big" { rng.below(40) } else { 200 }) {
             let (a, b) = (rng.below(n), rng.below(n));
             if a != b && !edges.contains(&(a.min(b), a.max(b))) {
                 edges.push((a.min(b), a.max(b)));
@@ -927,7 +979,49 @@ const SPECS: &[(u8, bool, &str)] = &[
     (3, false, "{:X}"),
     (3, true, "{:#X}"),
     (3, false, "{:>12X}"),
+    // wave 6: width / precision / fill / alignment / sign / zero flags in every combination the grammar of
+    // `std::fmt` has; none of them may reach a weight (ids 15..=34 Display/Debug, 35..=38 hex)
+    (0, false, "{:4}"),
+    (0, false, "{:.3}"),
+    (0, false, "{:<8.2}"),
+    (0, false, "{:.0}"),
+    (0, false, "{:1}"),
+    (0, false, "{:*^30.1}"),
+    (0, false, "{:+}"),
+    (0, false, "{:08}"),
+    (0, false, "{:.60}"),
+    (0, true, "{:#4}"),
+    (0, true, "{:#.3}"),
+    (0, true, "{:\"<#9.2}"),
+    (1, false, "{:4?}"),
+    (1, false, "{:.3?}"),
+    (1, false, "{:<8.2?}"),
+    (1, false, "{:.60?}"),
+    (1, false, "{:-^+09.0?}"),
+    (1, true, "{:#4?}"),
+    (1, true, "{:#.3?}"),
+    (1, true, "{:\\>#20.1?}"),
+    (2, false, "{:4x}"),
+    (2, false, "{:<8.2x}"),
+    (3, true, "{:#.3X}"),
+    (3, false, "{:+06X}"),
 ];
+/// ids of the specs every weight supports (Display / Debug) and of those that need `LowerHex` / `UpperHex`
+const DD_SPECS: &[usize] = &[0, 1, 2, 3, 4, 5, 6, 7, 8, 15, 16, 17, 18, 19, 20, 21, 22, 23, 24, 25, 26, 27, 28, 29, 30, 31, 32, 33, 34];
+const HEX_SPECS: &[usize] = &[9, 10, 11, 12, 13, 14, 35, 36, 37, 38];
+/// the plain spec with the same (kind, alternate) as spec `id`: what the text must be equal to
+fn plain_spec(id: usize) -> usize {
+    match (SPECS[id].0, SPECS[id].1) {
+        (0, false) => 0,
+        (0, true) => 1,
+        (1, false) => 5,
+        (1, true) => 6,
+        (2, false) => 9,
+        (2, true) => 10,
+        (3, false) => 12,
+        _ => 13,
+    }
+}
 macro_rules! fmt_dd {
     ($id:expr, $d:expr) => {
         match $id {
@@ -940,6 +1034,26 @@ macro_rules! fmt_dd {
             6 => Some(format!("{:#?}", $d)),
             7 => Some(format!("{:>40?}", $d)),
             8 => Some(format!("{:<#12?}", $d)),
+            15 => Some(format!("{:4}", $d)),
+            16 => Some(format!("{:.3}", $d)),
+            17 => Some(format!("{:<8.2}", $d)),
+            18 => Some(format!("{:.0}", $d)),
+            19 => Some(format!("{:1}", $d)),
+            20 => Some(format!("{:*^30.1}", $d)),
+            21 => Some(format!("{:+}", $d)),
+            22 => Some(format!("{:08}", $d)),
+            23 => Some(format!("{:.60}", $d)),
+            24 => Some(format!("{:#4}", $d)),
+            25 => Some(format!("{:#.3}", $d)),
+            26 => Some(format!("{:\"<#9.2}", $d)),
+            27 => Some(format!("{:4?}", $d)),
+            28 => Some(format!("{:.3?}", $d)),
+            29 => Some(format!("{:<8.2?}", $d)),
+            30 => Some(format!("{:.60?}", $d)),
+            31 => Some(format!("{:-^+09.0?}", $d)),
+            32 => Some(format!("{:#4?}", $d)),
+            33 => Some(format!("{:#.3?}", $d)),
+            34 => Some(format!("{:\\>#20.1?}", $d)),
             _ => None,
         }
     };
@@ -953,6 +1067,10 @@ macro_rules! fmt_hex {
             12 => Some(format!("{:X}", $d)),
             13 => Some(format!("{:#X}", $d)),
             14 => Some(format!("{:>12X}", $d)),
+            35 => Some(format!("{:4x}", $d)),
+            36 => Some(format!("{:<8.2x}", $d)),
+            37 => Some(format!("{:#.3X}", $d)),
+            38 => Some(format!("{:+06X}", $d)),
             _ => fmt_dd!($id, $d),
         }
     };
@@ -1036,7 +1154,7 @@ fn dot_lines<G>(
     gtype: &str,
     truth: &Truth<G::NodeWeight, G::EdgeWeight>,
     render: &dyn for<'a> Fn(&Dot<'a, G>, usize) -> Option<String>,
-    nspecs: usize,
+    hex: bool,
 ) where
     G: IntoNodeReferences + IntoEdgeReferences + NodeIndexable + GraphProp + Copy,
     G::NodeWeight: TW,
@@ -1084,21 +1202,69 @@ fn dot_lines<G>(
 
     let edge_attr = |_: G, e: G::EdgeRef| attr_of(&format!("{}", e.weight())).to_string();
     let node_attr = |_: G, n: G::NodeRef| attr_of(&format!("{}", n.weight())).to_string();
+    // LAW: the derived std traits of `Config` and `RankDir` (`Debug` never panics and names the variant, `==` is
+    // reflexive and separates the variants, `RankDir: Copy`)
+    {
+        let all: Vec<Config> = (0..5).map(flag).chain((0..4).map(rankdir)).collect();
+        let mut bad: Option<String> = None;
+        for (i, c) in all.iter().enumerate() {
+            let d = catch(|| format!("{:?}|{:#?}", c, c));
+            match d {
+                None => bad = Some(format!("Debug of Config #{} panicked", i)),
+                Some(t) => {
+                    let name = config_name(c);
+                    let want = if i < 5 { name.to_string() } else { format!("RankDir({})", &name[7..]) };
+                    if !t.starts_with(&format!("{}|", want)) {
+                        bad = Some(format!("Debug of {} prints [{}]", name, t.replace(char::is_whitespace, "_")));
+                    }
+                }
+            }
+            for (j, c2) in all.iter().enumerate() {
+                if (c == c2) != (i == j) || (c != c2) != (i != j) {
+                    bad = Some(format!("Config #{} == Config #{} answers {}", i, j, c == c2));
+                }
+            }
+        }
+        for i in 0..4 {
+            if let Config::RankDir(r) = rankdir(i) {
+                let r2 = r;
+                #[allow(clippy::clone_on_copy)]
+                let r3 = r.clone();
+                if r2 != r || r3 != r || format!("{:?}", r) != ["TB", "BT", "LR", "RL"][i] {
+                    bad = Some(format!("RankDir #{}: Clone / Copy / PartialEq / Debug disagree", i));
+                }
+            }
+        }
+        if rng.chance(25) {
+            ctx.line("law config-std-traits", &crate::iterlaws::law_verdict(bad));
+        }
+    }
+    if rng.chance(50) {
+        adaptor_laws(ctx, rng, g);
+    }
     let all_configs = ctx.tier_thorough && rng.chance(12);
     let rounds = if all_configs { 160 } else if ctx.tier_thorough { 10 } else { 7 };
     for k in 0..rounds {
         let configs = if all_configs { config_combo(k) } else { random_configs(rng) };
-        let spec = rng.below(nspecs);
+        // 60 % of the lines carry a width / precision / fill / sign / zero flag in the outer format spec
+        let pool: Vec<usize> = if hex && rng.chance(40) { HEX_SPECS.to_vec() } else { DD_SPECS.to_vec() };
+        let corner: Vec<usize> = pool.iter().copied().filter(|&i| i != plain_spec(i)).collect();
+        let plain: Vec<usize> = pool.iter().copied().filter(|&i| i == plain_spec(i)).collect();
+        let spec = if rng.chance(60) { *rng.pick(&corner) } else { *rng.pick(&plain) };
         let with_attrs = rng.chance(35);
-        let text = catch(|| {
-            if with_attrs {
-                render(&Dot::with_attr_getters(g, &configs, &edge_attr, &node_attr), spec)
-            } else if configs.is_empty() && rng.chance(50) {
-                render(&Dot::new(g), spec)
-            } else {
-                render(&Dot::with_config(g, &configs), spec)
-            }
-        });
+        let make = |spec: usize, new_ok: bool| {
+            catch(|| {
+                if with_attrs {
+                    render(&Dot::with_attr_getters(g, &configs, &edge_attr, &node_attr), spec)
+                } else if configs.is_empty() && new_ok {
+                    render(&Dot::new(g), spec)
+                } else {
+                    render(&Dot::with_config(g, &configs), spec)
+                }
+            })
+        };
+        let new_ok = rng.chance(50);
+        let text = make(spec, new_ok);
         let (kind, alt, _) = SPECS[spec];
         let cfg: Vec<&str> = configs.iter().map(config_name).collect();
         ctx.line(
@@ -1110,13 +1276,134 @@ fn dot_lines<G>(
                 spec,
                 with_attrs as u8
             ),
-            &match text {
-                Some(Some(t)) => cps(&t),
+            &match &text {
+                Some(Some(t)) => cps(t),
                 Some(None) => "unsupported".into(),
                 None => "panic".into(),
             },
         );
+        // LAW: width, precision, fill, alignment, sign and zero flags of the outer format spec are not visible in the
+        // text: it is character for character the text of the plain spec of the same trait and `#` flag
+        if spec != plain_spec(spec) {
+            let plain = make(plain_spec(spec), new_ok);
+            let v = match (&text, &plain) {
+                (Some(Some(a)), Some(Some(b))) => {
+                    if a == b {
+                        Ok(())
+                    } else {
+                        let k = a.chars().zip(b.chars()).take_while(|(x, y)| x == y).count();
+                        Err(format!(
+                            "the text of {} differs from the text of {} at char {} (lengths {} and {})",
+                            SPECS[spec].2.replace(' ', "_"),
+                            SPECS[plain_spec(spec)].2,
+                            k,
+                            a.chars().count(),
+                            b.chars().count()
+                        ))
+                    }
+                }
+                (Some(Some(_)), _) | (_, Some(Some(_))) => Err("one of the two format specs panicked".to_string()),
+                _ => Ok(()),
+            };
+            ctx.line(
+                &format!("law dot-format-spec-ignored spec={} plain={}", spec, plain_spec(spec)),
+                &match v {
+                    Ok(()) => "ok".to_string(),
+                    Err(w) => format!("VIOLATED {}", w),
+                },
+            );
+        }
     }
+}
+
+/// the statement lines of a `Dot::new` text (no getters, plain spec: a weight's line breaks are escaped, so one statement
+/// per line): `Ok((a, Some(b), rest))` an edge statement, `Ok((a, None, rest))` a node statement
+fn stmt_lines(text: &str) -> Vec<(usize, Option<usize>, String)> {
+    let mut out = Vec::new();
+    for l in text.split('\n') {
+        let Some(body) = l.strip_prefix("    ") else { continue };
+        let mut it = body.splitn(4, ' ');
+        let (Some(a), Some(op)) = (it.next().and_then(|x| x.parse::<usize>().ok()), it.next()) else { continue };
+        if op == "->" || op == "--" {
+            let b = it.next().and_then(|x| x.parse::<usize>().ok());
+            out.push((a, b, format!("{} {}", op, it.next().unwrap_or(""))));
+        } else {
+            out.push((a, None, format!("{} {}", op, it.collect::<Vec<_>>().join(" "))));
+        }
+    }
+    out
+}
+
+/// LAW: `Dot` over a graph adaptor prints the adaptor's graph: `Reversed(g)` = the same node statements and every edge
+/// statement with its endpoints exchanged; `NodeFiltered(g, keep)` = the node statements of the kept nodes and the edge
+/// statements between kept nodes; header and footer unchanged.  Statements are compared as multisets (unordered pairs for
+/// an undirected graph).
+fn adaptor_laws<G>(ctx: &mut Ctx, rng: &mut Rng, g: G)
+where
+    G: IntoNodeReferences + IntoEdgeReferences + NodeIndexable + GraphProp + Copy,
+    G::NodeWeight: TW,
+    G::EdgeWeight: TW,
+{
+    let directed = g.is_directed();
+    let Some(base) = catch(|| format!("{}", Dot::new(g))) else { return };
+    let head = |t: &str| t.split('\n').next().unwrap_or("").to_string();
+    let canon = |mut v: Vec<(usize, Option<usize>, String)>| {
+        if !directed {
+            for x in v.iter_mut() {
+                if let Some(b) = x.1 {
+                    if b < x.0 {
+                        *x = (b, Some(x.0), x.2.clone());
+                    }
+                }
+            }
+        }
+        v.sort();
+        v
+    };
+    let verdict = |name: &str, got: Option<String>, want: Vec<(usize, Option<usize>, String)>| -> Option<String> {
+        let Some(got) = got else { return Some(format!("Dot over {} panicked", name)) };
+        if head(&got) != head(&base) || !got.ends_with("}\n") {
+            return Some(format!("Dot over {}: header or footer differs from the base graph's", name));
+        }
+        let (g1, w1) = (canon(stmt_lines(&got)), canon(want));
+        if g1 == w1 {
+            None
+        } else {
+            let k = g1.iter().zip(w1.iter()).take_while(|(a, b)| a == b).count();
+            Some(format!(
+                "Dot over {}: {} statements, expected {}; first difference (sorted) got {:?} expected {:?}",
+                name,
+                g1.len(),
+                w1.len(),
+                g1.get(k).map(|x| (x.0, x.1)),
+                w1.get(k).map(|x| (x.0, x.1))
+            ))
+        }
+    };
+    let base_stmts = stmt_lines(&base);
+    // Reversed
+    let want: Vec<_> = base_stmts
+        .iter()
+        .map(|(a, b, r)| match b {
+            Some(b) => (*b, Some(*a), r.clone()),
+            None => (*a, None, r.clone()),
+        })
+        .collect();
+    let got = catch(|| format!("{}", Dot::new(Reversed(g))));
+    ctx.line("law dot-over-adaptor reversed", &crate::iterlaws::law_verdict(verdict("Reversed", got, want)));
+    // NodeFiltered
+    let bound = g.node_bound();
+    let keep: Vec<bool> = (0..bound).map(|_| rng.chance(65)).collect();
+    let want: Vec<_> = base_stmts
+        .iter()
+        .filter(|(a, b, _)| keep[*a] && b.map(|b| keep[b]).unwrap_or(true))
+        .cloned()
+        .collect();
+    let got = catch(|| {
+        let f = NodeFiltered(g, |n: G::NodeId| keep[g.to_index(n)]);
+        format!("{}", Dot::new(&f))
+    });
+    ctx.line("law dot-over-adaptor node-filtered", &crate::iterlaws::law_verdict(verdict("NodeFiltered", got, want)));
 }
 
 fn small_n(rng: &mut Rng) -> usize {
@@ -1329,12 +1616,12 @@ fn dot_map<N: TW + Copy + Ord + std::hash::Hash, EW: TW, Ty: EdgeType>(
 
 macro_rules! run_dd {
     ($ctx:expr, $rng:expr, $g:expr, $ty:expr, $t:expr) => {
-        dot_lines($ctx, $rng, $g, $ty, $t, &|d, id| fmt_dd!(id, d), 9)
+        dot_lines($ctx, $rng, $g, $ty, $t, &|d, id| fmt_dd!(id, d), false)
     };
 }
 macro_rules! run_hex {
     ($ctx:expr, $rng:expr, $g:expr, $ty:expr, $t:expr) => {
-        dot_lines($ctx, $rng, $g, $ty, $t, &|d, id| fmt_hex!(id, d), 15)
+        dot_lines($ctx, $rng, $g, $ty, $t, &|d, id| fmt_hex!(id, d), true)
     };
 }
 
